@@ -229,12 +229,16 @@ class Session:
         self.loop = KLoop(kern=self.kern)
 
     def service_parked(self):
-        """Let the loops that were left open run what is queued on them (transport close callbacks)."""
-        for lp in getattr(self, 'parked', []):
-            if not lp.is_closed():
-                lp.settle(0)
-        if getattr(self, 'parked', None):
-            self.loop.settle(0)
+        """A loop that was left open stays open and IDLE: it never runs again (the property speaks about successive
+        asyncio.run() calls; a previous loop that goes on running next to the new one is outside it - an earlier version
+        that ran the parked loops raised alarms about stale close callbacks of the old loop hitting the new transport)."""
+        return None
+
+    def parked_fds(self):
+        """Descriptors whose close is queued on an idle parked loop (they are closed as soon as that loop runs or ends)."""
+        pk = getattr(self, 'parked', [])
+        return {t._sock.fileno() for t in self.kern.transports
+                if getattr(t, '_loop', None) in pk and t.is_closing() and getattr(t, '_sock', None) is not None}
 
     def fp(self, extra=()):
         return fingerprint(self.loop, (self.p,) + ((self.inv,) if self.inv is not None else ()),
